@@ -139,6 +139,12 @@ func replayFile(t *testing.T, path string) {
 			t.Fatalf("load %s: %v", path, err)
 		}
 		checkBuiltinsInModules(t, test, &p)
+	case "TestHostModuleTables":
+		var p htCase
+		if _, err := ev.LoadReplay(path, &p); err != nil {
+			t.Fatalf("load %s: %v", path, err)
+		}
+		checkHostTables(t, test, &p)
 	case "TestModuleMapModel":
 		var p mmCase
 		if _, err := ev.LoadReplay(path, &p); err != nil {
